@@ -96,12 +96,12 @@ def nestedProxyWith (s : Sess) (clean : Bool) (start len : Nat) (new : Str) (com
   let act := s.spans clean
   let insSp := act.filter fun o => o.sp.insId == some id
   let rawIns := raw.filter fun o => o.sp.insId == some id
-  match insSp.head?, rawIns.head? with
-  | some i0, some r0 =>
-    let full := ospansText insSp
-    let rel := start - i0.start
-    let expanded := full.take rel ++ new ++ full.drop (rel + len)
-    some (applyIndexed s false r0.start full.length expanded comment none)
+  let full := ospansText insSp
+  match (if full.isEmpty then none else rawIns.head?), rawIns.getLast? with
+  | some r0, some r1 =>
+    let expanded := full.take (insCharsBefore insSp start) ++ new ++ full.drop (insCharsBefore insSp (start + len))
+    -- the proxy addresses the whole extent of the insertion in the raw text (markers between its runs included)
+    some (applyIndexed s false r0.start (r1.stop - r0.start) expanded comment none)
   | _, _ => none
 
 /-- `_proxy_for_insertion`: a range that lies inside one pending insertion replaces that insertion; `none` when it
